@@ -339,6 +339,46 @@ def h_copula_fixed_dates(ctx, ndates):
               replay=rp, regions={"several_product_dates": ndates > 1})
 
 
+# ---- copula chain: Brownian part over steps of different length
+
+
+def replay_copula_diffusion(sc):
+    """the real helper on floats: two steps of different length"""
+    import rpylib.process.markovchain.markovchainlevycopula as MCLC
+
+    D = np.array([[0.3, 0.0], [0.1, 0.2]])
+    sq = np.array([0.5, 1.2])
+    Z = np.array([[1.0, -2.0], [0.5, 0.25]])
+    obj = type("S", (), {"diffusion_matrix": D})()
+    got = np.asarray(MCLC.MCLevyCopulaSimulation.helper_simulate_diffusion_part(obj, sq, Z), dtype=float)
+    inc = (D @ Z) * sq
+    want = np.cumsum(inc, axis=1)
+    return not np.allclose(got, want, atol=1e-12), f"diffusion matrix {D.tolist()}, sqrt(dt) {sq.tolist()}, normals {Z.tolist()}: Brownian part {got.tolist()}, running sum of the scaled correlated increments {want.tolist()}"
+
+
+def h_copula_diffusion(ctx, nsteps=2):
+    """Brownian part of a copula-chain path: at step i the running sum of sqrt(dt_j) (D Z_j), j <= i, for steps of different length
+    (the helper only reads the simulation object's diffusion matrix: a stand-in object carries it)"""
+    import rpylib.process.markovchain.markovchainlevycopula as MCLC
+
+    shims.install_np(MCLC)
+    d = 2
+    D = np.array([[ctx.real(f"D{i}{j}") for j in range(d)] for i in range(d)], dtype=object)
+    sq = np.array([ctx.real(f"sqrt_dt{j}", 0) for j in range(nsteps)], dtype=object)
+    Z = np.array([[ctx.real(f"Z{i}_{j}") for j in range(nsteps)] for i in range(d)], dtype=object)
+    obj = type("S", (), {"diffusion_matrix": D})()
+    got = MCLC.MCLevyCopulaSimulation.helper_simulate_diffusion_part(obj, sq, Z)
+    ok = np.shape(got) == (d, nsteps)
+    terms = []
+    if ok:
+        for i in range(d):
+            run = 0
+            for j in range(nsteps):
+                run = run + sq[j] * sum(D[i, k] * Z[k, j] for k in range(d))
+                terms.append(EQ(got[i][j], run))
+    ctx.prove("C15.copula.chain.diffusion_component_is_running_sum_of_scaled_correlated_normals", ok and AND(*terms), info={"steps": nsteps}, replay=(replay_copula_diffusion, lambda m: {}))
+
+
 # ---- copula coupling: the time-step cap of each level
 
 
@@ -607,6 +647,7 @@ def harnesses(tier):
     hs = [Harness("concrete", concrete_validation, concrete=True)]
     for nd in ((1, 2) if q else (1, 2, 3)):
         hs.append(Harness(f"fixed.{nd}", h_fixed, {"ndates": nd}, max_paths=4000, batch=20))
+    hs.append(Harness("copula.chain.diffusion", h_copula_diffusion, max_paths=200))
     hs.append(Harness("copula.coupled.caps", h_copula_caps, max_paths=50, batch=2))
     for nd in (1, 2):
         hs.append(Harness(f"copula.fixed.{nd}", h_copula_fixed_dates, {"ndates": nd}, max_paths=200, batch=3))
